@@ -27,9 +27,11 @@ type monC16 struct {
 	seen    map[string]bool
 }
 
-func NewC16(queries bool) Monitor { return &monC16{st: NewStats(), queries: queries, seen: map[string]bool{}} }
-func (m *monC16) Prop() string    { return "C16" }
-func (m *monC16) Stats() *Stats   { return m.st }
+func NewC16(queries bool) Monitor {
+	return &monC16{st: NewStats(), queries: queries, seen: map[string]bool{}}
+}
+func (m *monC16) Prop() string  { return "C16" }
+func (m *monC16) Stats() *Stats { return m.st }
 
 func (m *monC16) OnTransition(t *Transition) []Violation {
 	var vs []Violation
